@@ -92,25 +92,25 @@ example : 16 * wGood.length ≤ budget ∧
   The model makes non-termination an explicit outcome (`none`). -/
 
 /-- **create terminates on every upload** (working tree's decoder, every budget) -/
-theorem create_terminates_tree (bs : Bytes) (budget : Option Nat) :
-    (ggufLayers bs budget).isSome = true :=
-  ggufLayers_terminates bs budget Guards.tree rfl
+theorem create_terminates_tree (bs : Bytes) (budget : Option Nat) (maxSeek : Nat) :
+    (ggufLayers bs budget Guards.tree maxSeek).isSome = true :=
+  ggufLayers_terminates bs budget Guards.tree rfl maxSeek
 
 /-- **create is safe on every upload**: no panic site, no allocation above the budget, however many
     models the upload holds and wherever it is cut -/
-theorem create_safe_tree (bs : Bytes) (B : Nat) (hB : 16 * bs.length ≤ B) :
-    SafeL (ggufLayers bs (some B)) :=
-  ggufLayers_safe bs B hB
+theorem create_safe_tree (bs : Bytes) (B : Nat) (hB : 16 * bs.length ≤ B) (maxSeek : Nat) :
+    SafeL (ggufLayers bs (some B) Guards.tree maxSeek) :=
+  ggufLayers_safe bs B hB maxSeek
 
 /-- the layers create produces lie inside the upload -/
-theorem create_layers_within (bs : Bytes) (budget : Option Nat) (out : List GLayer)
-    (h : ggufLayers bs budget = some (.ok out)) : Within bs.length out :=
-  ggufLayers_within bs budget Guards.tree out h
+theorem create_layers_within (bs : Bytes) (budget : Option Nat) (maxSeek : Nat) (out : List GLayer)
+    (h : ggufLayers bs budget Guards.tree maxSeek = some (.ok out)) : Within bs.length out :=
+  ggufLayers_within bs budget Guards.tree maxSeek out h
 
 /-- a decode that starts at 0 and ends at 0 keeps the loop where it is: no fuel is ever enough -/
-theorem loop_stuck (bs : Bytes) (budget : Option Nat) (g : Guards) (d : Decoded) (hpos : 0 < bs.length)
+theorem loop_stuck (bs : Bytes) (budget : Option Nat) (g : Guards) (maxSeek : Nat) (d : Decoded) (hpos : 0 < bs.length)
     (hd : decodeFrom ⟨bs, 0⟩ 0 budget g = .ok d) (hend : d.endOffset = 0) :
-    ∀ (fuel : Nat) (acc : List GLayer), ggufLayersLoop bs budget g fuel 0 acc = none := by
+    ∀ (fuel : Nat) (acc : List GLayer), ggufLayersLoop bs budget g maxSeek fuel 0 acc = none := by
   intro fuel
   induction fuel with
   | zero => intro acc; unfold ggufLayersLoop; rw [if_pos hpos]
@@ -119,6 +119,7 @@ theorem loop_stuck (bs : Bytes) (budget : Option Nat) (g : Guards) (d : Decoded)
     unfold ggufLayersLoop
     rw [if_pos hpos, List.drop_zero, hd]
     simp only [hend]
+    rw [if_neg (by omega)]
     exact ih _
 
 /-- **Witness (pinned decoder)**: on the 57-byte file of `witness_end_before_start` upstream's
@@ -140,7 +141,7 @@ theorem witness_pinned_create_never_answers :
   unfold ggufLayers
   simp only []
   rw [if_neg (by decide)]
-  exact loop_stuck wNegSeek (some budget) Guards.pinned d (by decide) hd hend _ _
+  exact loop_stuck wNegSeek (some budget) Guards.pinned _ d (by decide) hd hend _ _
 
 /-- … and the working tree's decoder rejects that file -/
 example : (ggufLayers wNegSeek (some budget)).map (fun r => match r with | .error e => some e | .ok _ => none)
